@@ -7,7 +7,7 @@ CONSTANTS
   MaxEvents = 2
   MaxLeaves = 3
   MaxOps = 3
-  Faults = {"stmt", "ctx"}
+  Faults = {"stmt", "ctx", "commit"}
   AllowGap = FALSE
   AllowRestart = TRUE
   AllowReorg = FALSE
